@@ -44,6 +44,7 @@ fn map_rust(f: &MapFn, t: &Ty) -> String {
 fn pred_rust(f: &Pred) -> String {
     match f {
         Pred::Even => "|x: &i64| *x % 2 == 0".into(),
+        Pred::Odd => "|x: &i64| *x % 2 != 0".into(),
         Pred::Lt(k) => format!("|x: &i64| *x < {}", c(*k)),
         Pred::Ne(k) => format!("|x: &i64| *x != {}", c(*k)),
         Pred::KeyEven => format!("|t: &{PT}| t.0 % 2 == 0"),
@@ -160,12 +161,24 @@ fn op_text(p: &Prog, a: &Analysis, i: usize) -> String {
         Op::Handoff => "handoff()".into(),
         Op::Singleton => "singleton()".into(),
         Op::Optional => "optional()".into(),
-        Op::RefMap { target, f } => match f {
-            RefFn::PairWith => format!("map(|x: i64| (x, *#n{target}))"),
-            RefFn::Add => format!("map(|x: i64| x + *#n{target})"),
-            RefFn::Len => format!("map(|x: i64| (x, #n{target}.len() as i64))"),
-            RefFn::SumBuf => format!("map(|x: i64| (x, #n{target}.iter().sum::<i64>()))"),
-        },
+        Op::RefMap { target, f, group } => {
+            let g = match group {
+                Some(g) => format!("{{{g}}} "),
+                None => String::new(),
+            };
+            match f {
+                RefFn::PairWith => format!("map(|x: i64| (x, *#{g}n{target}))"),
+                RefFn::Add => format!("map(|x: i64| x + *#{g}n{target})"),
+                RefFn::Len => format!("map(|x: i64| (x, #{g}n{target}.len() as i64))"),
+                RefFn::SumBuf => format!("map(|x: i64| (x, #{g}n{target}.iter().sum::<i64>()))"),
+                RefFn::MulAdd(a) => format!(
+                    "map(|x: i64| {{ let r = #{g}mut n{target}; *r = (*r * {} + x) % {M}i64; x }})",
+                    c(*a)
+                ),
+                RefFn::Push => format!("map(|x: i64| {{ #{g}mut n{target}.push(x); x }})"),
+                RefFn::Retain => format!("map(|x: i64| {{ #{g}mut n{target}.retain(|y| *y != x); x }})"),
+            }
+        }
         Op::Tee { .. } => "tee()".into(),
         Op::Unzip => "unzip()".into(),
         Op::Partition { f, .. } => {
